@@ -133,6 +133,43 @@ func doFilter[T any](c codec[T], l, spare []int, keep map[int]bool) (o obs) {
 	sliceOps.FilterInPlace(&s, func(x T) bool { return keep[c.dec(x)] })
 	return obs{Vis: decL(c, s), Backing: decL(c, arr), Len: len(s)}
 }
+
+// stateful predicates (closures with their own variables); mirrored by [spred] in Run/CorrC12.v.
+// The elements offered to the predicate are recorded in Ret, in call order.
+func doFilterSt[T any](c codec[T], l, spare []int, kind, nn int, set map[int]bool) (o obs) {
+	defer guard(&o)
+	arr, s := mkslice(c, l, spare)
+	st := 0
+	offered := []int{}
+	sliceOps.FilterInPlace(&s, func(x T) bool {
+		e := c.dec(x)
+		offered = append(offered, e)
+		switch kind {
+		case 0: // keep every other element
+			st++
+			return st%2 == 1
+		case 1: // remove only the first element that is in the set
+			if st == 0 && set[e] {
+				st = 1
+				return false
+			}
+			return true
+		case 2: // remove at most nn elements that are in the set
+			if st < nn && set[e] {
+				st++
+				return false
+			}
+			return true
+		case 3: // keep the first nn elements
+			st++
+			return st <= nn
+		default: // membership, inverted on every other call
+			st++
+			return set[e] != (st%2 == 0)
+		}
+	})
+	return obs{Ret: offered, Vis: decL(c, s), Backing: decL(c, arr), Len: len(s)}
+}
 func doPush[T any](c codec[T], l, spare []int, v []int) (o obs) {
 	defer guard(&o)
 	arr, s := mkslice(c, l, spare)
@@ -254,6 +291,16 @@ func (g *gen) listCase(kind string, l, spare []int, i, j int, v []int, keep []in
 		o = agree(g, doFilter(intC, l, spare, km), doFilter(strC, l, spare, km), doFilter(ptrC, l, spare, km), kind)
 		coq = fmt.Sprintf("CFilter %s %s %d %s %s %s", cw.ZL(keep), cw.ZL(b), len(l), cw.ZL(o.Vis), cw.ZL(o.Backing), cw.Z(o.Len))
 		desc["keep"] = keep
+		trivial = o.Len == len(l)
+	case "filterst":
+		km := map[int]bool{}
+		for _, k := range keep {
+			km[k] = true
+		}
+		o = agree(g, doFilterSt(intC, l, spare, i, j, km), doFilterSt(strC, l, spare, i, j, km), doFilterSt(ptrC, l, spare, i, j, km), kind)
+		coq = fmt.Sprintf("CFilterSt %d %d %s %s %d %s %s %s %s", i, j, cw.ZL(keep), cw.ZL(b), len(l), cw.ZL(o.Ret), cw.ZL(o.Vis), cw.ZL(o.Backing), cw.Z(o.Len))
+		desc["stateful_predicate"] = []string{"keep every other element", "remove only the first element in the set", "remove at most n elements in the set", "keep the first n elements", "membership inverted on every other call"}[i]
+		desc["n"], desc["set"] = j, keep
 		trivial = o.Len == len(l)
 	case "push":
 		o = agree(g, doPush(intC, l, spare, v), doPush(strC, l, spare, v), doPush(ptrC, l, spare, v), kind)
@@ -397,6 +444,11 @@ func main() {
 					}
 				}
 				g.listCase("filter", l, sp, 0, 0, nil, keep)
+				if mask < 4 || mask == 1<<n-1 {
+					for pk := 0; pk < 5; pk++ {
+						g.listCase("filterst", l, sp, pk, 1+mask%2, nil, keep)
+					}
+				}
 			}
 		}
 	}
@@ -459,6 +511,7 @@ func main() {
 				}
 			}
 			g.listCase("filter", l, spares[g.rng.Intn(3)], 0, 0, nil, keep)
+			g.listCase("filterst", l, spares[g.rng.Intn(3)], g.rng.Intn(5), g.rng.Intn(4), nil, keep)
 		case 2:
 			l := nz(rl(10, alpha))
 			g.listCase("insert", l, spares[g.rng.Intn(3)], g.rng.Intn(len(l)+1), 0, nz(rl(5, alpha)), nil)
